@@ -1,17 +1,20 @@
 (* C26 — Segment file names encode path and start instant losslessly.
    Only statements here; every proof is `exact <lemma of Proofs/C26_RecPath.v or Lib/Civil.v>`.
-   Model: Model/C26_RecPath.v (encode_go = Path.Encode, decode = Path.Decode after fix 2b44fe1). *)
+   Model: Model/C26_RecPath.v (encode_go = Path.Encode, decode_lz / decode = Path.Decode after fix 2b44fe1
+   and the re-encode comparison), Model/C26_Zone.v (zone tables, Location.lookup, time.Date's rule). *)
 From Coq Require Import List ZArith.
-Require Import MTX.Lib.Civil MTX.Model.C26_RecPath MTX.Proofs.C26_RecPath.
+Require Import MTX.Lib.Civil MTX.Model.C26_RecPath MTX.Proofs.C26_RecPath MTX.Model.C26_Zone MTX.Proofs.C26_Zone.
 Import ListNotations.
 Local Open Scope Z_scope.
+
+(* ------------------------------------------------------------------ first half: Decode (Encode) *)
 
 (* Every name the recorder writes is recognised as a segment of that path with that start instant
    (to the microsecond when the format has %f, to the second otherwise), for every format in which
    every '%' starts a placeholder, %path occurs once and at most one %z follows it; every path name
    without newline and '%' (all valid names); every instant the fixed-width fields can hold
-   (4-digit year if %Y, 10-digit Unix time if %s; with %z an offset of whole minutes below 100 h,
-   without %z and %s the local offset `loff` that Decode applies equals the one Encode used). *)
+   (4-digit year if %Y, 10-digit Unix time if %s; with %z an offset of whole minutes below 100 h;
+   without %z the instant is held in the local zone, here the fixed offset `loff`). *)
 Theorem C26_roundtrip : forall loff f p t,
   wf_format f = true -> name_ok p = true -> identifies (tokenize f) = true ->
   encodable loff (tokenize f) t = true ->
@@ -19,6 +22,129 @@ Theorem C26_roundtrip : forall loff f p t,
   Some (p, fst (trunc_start (tokenize f) t), snd (trunc_start (tokenize f) t)).
 Proof. exact roundtrip. Qed.
 Print Assumptions C26_roundtrip.
+
+(* The same for ANY local zone, given as the two functions the code uses (L: the offset time.Date
+   subtracts for a wall-clock reading, the offset in force at an instant): without %z the instant must be
+   held in the local zone, and without %s as well time.Date must map its reading back to that offset. *)
+Theorem C26_roundtrip_local : forall L f p t,
+  wf_format f = true -> name_ok p = true -> identifies (tokenize f) = true ->
+  encodable_lz L (tokenize f) t = true ->
+  decode_lz L f (encode_go f p t) =
+  Some (p, fst (trunc_start (tokenize f) t), snd (trunc_start (tokenize f) t)).
+Proof. exact roundtrip_lz. Qed.
+Print Assumptions C26_roundtrip_local.
+
+(* ... and that condition is exact: without %z and %s, an instant held in the local zone comes back
+   if and only if time.Date maps its wall-clock reading to the offset in force at it. *)
+Theorem C26_roundtrip_exactly_when : forall L f p t,
+  wf_format f = true -> name_ok p = true -> identifies (tokenize f) = true -> enc_ranges (tokenize f) t = true ->
+  has Tz (tokenize f) = false -> has Ts (tokenize f) = false -> lz_at L (i_unix t) = i_off t ->
+  (decode_lz L f (encode_go f p t) = Some (p, i_unix t, snd (trunc_start (tokenize f) t))
+   <-> lz_date L (i_unix t + i_off t) = i_off t).
+Proof. exact roundtrip_lz_iff. Qed.
+Print Assumptions C26_roundtrip_exactly_when.
+
+(* ------------------------------------------------------------------ zone-database zones (DST) *)
+
+(* A zone = a finite table of offset changes (Model/C26_Zone.v: `lookup` = Location.lookup,
+   `go_date_off` = the resolution rule of time.Date as implemented), with the two properties of a zone
+   database: offsets within B seconds of UTC, successive changes more than 2B apart (zone_ok).
+   In such a zone time.Date maps the wall-clock reading of EVERY instant outside the repeated hours
+   (the (a - b) seconds before and after a change from offset a down to b) back to that instant ... *)
+Theorem C26_zone_date_recovers : forall B z, zone_ok B z = true -> forall u,
+  in_repeat (lookup z) u = false -> go_date_off z (u + offset_at z u) = offset_at z u.
+Proof. exact zone_date_recovers. Qed.
+Print Assumptions C26_zone_date_recovers.
+
+(* ... hence the recorder's file name decodes to path and start for every such instant, whatever the
+   format (no %z / %s needed) ... *)
+Theorem C26_zone_roundtrip : forall B z, zone_ok B z = true -> forall f p u n,
+  wf_format f = true -> name_ok p = true -> identifies (tokenize f) = true ->
+  enc_ranges (tokenize f) (local_instant z u n) = true -> in_repeat (lookup z) u = false ->
+  decode_zone z f (encode_go f p (local_instant z u n)) =
+  Some (p, u, snd (trunc_start (tokenize f) (local_instant z u n))).
+Proof. exact roundtrip_zone. Qed.
+Print Assumptions C26_zone_roundtrip.
+
+(* ... exactly when (any table): *)
+Theorem C26_zone_roundtrip_iff : forall z f p u n,
+  wf_format f = true -> name_ok p = true -> identifies (tokenize f) = true ->
+  enc_ranges (tokenize f) (local_instant z u n) = true ->
+  has Tz (tokenize f) = false -> has Ts (tokenize f) = false ->
+  (decode_zone z f (encode_go f p (local_instant z u n)) =
+     Some (p, u, snd (trunc_start (tokenize f) (local_instant z u n)))
+   <-> go_date_off z (u + offset_at z u) = offset_at z u).
+Proof. exact roundtrip_zone_iff. Qed.
+Print Assumptions C26_zone_roundtrip_iff.
+
+(* Inside a repeated hour time.Date picks by comparing the reading, taken as UTC, with the change:
+   the offset before the change if the reading precedes it, the offset after it otherwise (so zones west
+   of Greenwich get the first pass, zones east of it the second) - for an instant of the first pass
+   (period [_, e0) at offset a, then b < a) and of the second pass (period [s0, _) at a, before it a' > a). *)
+Theorem C26_zone_date_pick_first : forall B z, zone_ok B z = true -> forall u a s e0,
+  lookup z u = (a, s, Some e0) -> first_pass (lookup z) u = true ->
+  go_date_off z (u + a) = if u + a <? e0 then a else offset_at z e0.
+Proof. exact zone_pick_first. Qed.
+Print Assumptions C26_zone_date_pick_first.
+
+Theorem C26_zone_date_pick_second : forall B z, zone_ok B z = true -> forall u a s0 e,
+  lookup z u = (a, Some s0, e) -> second_pass (lookup z) u = true ->
+  go_date_off z (u + a) = if u + a <? s0 then offset_at z (s0 - 1) else a.
+Proof. exact zone_pick_second. Qed.
+Print Assumptions C26_zone_date_pick_second.
+
+(* Every instant of a repeated hour has a twin, a different instant with the same wall-clock reading ... *)
+Theorem C26_zone_repeat_collides : forall B z, zone_ok B z = true -> forall u, in_repeat (lookup z) u = true ->
+  twin (lookup z) u <> u /\ twin (lookup z) u + offset_at z (twin (lookup z) u) = u + offset_at z u.
+Proof. exact zone_repeat_collides. Qed.
+Print Assumptions C26_zone_repeat_collides.
+
+(* ... and, when the format has neither %z nor %s, the SAME FILE NAME (the recorder opens it with
+   os.Create, which truncates: the earlier segment is lost - KNOWN_FINDINGS class dst-repeated-hour) *)
+Theorem C26_zone_collision : forall B z, zone_ok B z = true -> forall f p u n,
+  forallb (fun k => negb (tok_eqb k (TLit 37))) (tokenize f) = true -> Forall (fun c => c <> 37) p ->
+  has Tz (tokenize f) = false -> has Ts (tokenize f) = false -> in_repeat (lookup z) u = true ->
+  twin (lookup z) u <> u /\
+  encode_go f p (local_instant z (twin (lookup z) u) n) = encode_go f p (local_instant z u n).
+Proof. exact collision_zone. Qed.
+Print Assumptions C26_zone_collision.
+
+(* Still, every name the recorder writes - repeated hours included - is recognised, with the right path
+   and a Start that shows the wall-clock reading that was written (it is the recorded instant or its twin) *)
+Theorem C26_zone_recognised : forall B z, zone_ok B z = true -> forall f p u n,
+  wf_format f = true -> name_ok p = true -> identifies (tokenize f) = true ->
+  enc_ranges (tokenize f) (local_instant z u n) = true ->
+  let r := decoded_unix (lz_of_zone z) (tokenize f) (local_instant z u n) in
+  decode_zone z f (encode_go f p (local_instant z u n)) =
+  Some (p, r, snd (trunc_start (tokenize f) (local_instant z u n)))
+  /\ r + offset_at z r = u + offset_at z u.
+Proof. exact recognised_zone. Qed.
+Print Assumptions C26_zone_recognised.
+
+(* The first half at full strength ("all instants and time zones") is therefore false of the code:
+   Europe/Rome 2024 (CET +1 h, CEST +2 h from 2024-03-31T01:00Z to 2024-10-27T01:00Z), default format,
+   02:30:00 CEST (00:30Z) and 02:30:00 CET (01:30Z): two instants, one file name, Decode reports the
+   second; America/New_York 2024, 01:30 EDT / 01:30 EST: Decode reports the first. *)
+Definition rome2024 : zone := mkZone 3600 [(1711846800, 7200); (1729990800, 3600)].
+Definition newyork2024 : zone := mkZone (-18000) [(1710054000, -14400); (1730613600, -18000)].
+Definition f_default : list Z :=  (* /rec/%path/%Y-%m-%d_%H-%M-%S-%f.mp4 *)
+  [47;114;101;99;47; 37;112;97;116;104; 47; 37;89;45;37;109;45;37;100;95;37;72;45;37;77;45;37;83;45;37;102; 46;109;112;52].
+Theorem C26_zone_roundtrip_refuted :
+  let p := [99;97;109] in
+  zone_ok 57600 rome2024 = true /\ zone_ok 57600 newyork2024 = true /\
+  wf_format f_default = true /\ identifies (tokenize f_default) = true /\
+  enc_ranges (tokenize f_default) (local_instant rome2024 1729989000 0) = true /\
+  in_repeat (lookup rome2024) 1729989000 = true /\ twin (lookup rome2024) 1729989000 = 1729992600 /\
+  encode_go f_default p (local_instant rome2024 1729989000 0) =
+  encode_go f_default p (local_instant rome2024 1729992600 0) /\
+  decode_zone rome2024 f_default (encode_go f_default p (local_instant rome2024 1729989000 0))
+    = Some (p, 1729992600, 0) /\
+  encode_go f_default p (local_instant newyork2024 1730611800 0) =
+  encode_go f_default p (local_instant newyork2024 1730615400 0) /\
+  decode_zone newyork2024 f_default (encode_go f_default p (local_instant newyork2024 1730615400 0))
+    = Some (p, 1730611800, 0).
+Proof. vm_compute. repeat split. Qed.
+Print Assumptions C26_zone_roundtrip_refuted.
 
 Theorem C26_valid_names_ok : forall p, valid_name p = true -> name_ok p = true.
 Proof. exact valid_name_ok. Qed.
@@ -31,19 +157,30 @@ Theorem C26_encode_by_tokens : forall f p t,
 Proof. exact encode_go_tokens. Qed.
 Print Assumptions C26_encode_by_tokens.
 
-(* A recognised name is, as a whole, the literals of the format with well-shaped fields in between
-   (digits of the placeholder's width, a zone Z|±dddd, a path text without newline): no foreign
-   prefix, suffix or infix. Partial: it does not say that the fields are ones Encode writes
-   (calendar range, canonical zone text, agreeing duplicates) — see C26_strict_whole_name_refuted. *)
-Theorem C26_whole_name_partial : forall loff f v r, decode loff f v = Some r ->
-  exists caps, v = fill (tokenize f) caps /\ forallb cap_shape caps = true
-               /\ map fst caps = nonlit (tokenize f) /\ r = decode_caps loff caps.
-Proof. exact whole_name. Qed.
-Print Assumptions C26_whole_name_partial.
+(* ------------------------------------------------------------------ second half: whole names *)
 
-(* full strength of the second half is false of the code: month 13 is accepted (known finding) *)
+(* A file is recognised only if its whole name is one the recorder could have produced: it IS the name
+   Encode writes for the decoded path and start (at the offset of the decoded Start). Every local zone,
+   every format (degenerate ones included), every candidate. Since the fix that ends Decode with
+   `return p.Encode(format) == v`. *)
+Theorem C26_whole_name : forall L f v p u n, decode_lz L f v = Some (p, u, n) ->
+  exists off, v = encode_go f p (mkI u n off).
+Proof. exact whole_name_full. Qed.
+Print Assumptions C26_whole_name.
+
+(* The shape form (used by C06 / C30): a recognised name is, as a whole, the literals of the format
+   with well-shaped fields in between (digits of the placeholder's width, a zone Z|+-dddd, a path text
+   without newline): no foreign prefix, suffix or infix. *)
+Theorem C26_whole_name_shape : forall L f v r, decode_lz L f v = Some r ->
+  exists caps, v = fill (tokenize f) caps /\ forallb cap_shape caps = true
+               /\ map fst caps = nonlit (tokenize f) /\ r = decode_caps_lz L caps.
+Proof. exact whole_name_lz. Qed.
+Print Assumptions C26_whole_name_shape.
+
+(* the code before that fix recognised names Encode never writes: month 13 (now rejected) *)
 Theorem C26_strict_whole_name_refuted :
-  (exists r, decode 0 f_month v_month = Some r) /\ forall p t, v_month <> encode f_month p t.
+  (exists r, decode_lax 0 f_month v_month = Some r) /\ (forall p t, v_month <> encode f_month p t) /\
+  decode 0 f_month v_month = None.
 Proof. exact strict_whole_name_refuted. Qed.
 Print Assumptions C26_strict_whole_name_refuted.
 
@@ -54,11 +191,13 @@ Theorem C26_unanchored_refuted :
 Proof. exact unanchored_refuted. Qed.
 Print Assumptions C26_unanchored_refuted.
 
-(* outside wf_format the first half is false: "%path/%path_%s" attributes a/b's segment to b/a/b (known finding) *)
+(* outside wf_format the first half is false: under "%path/%path_%s" the segment of a/b is not recognised
+   (before the re-encode comparison it was attributed to b/a/b) (known finding) *)
 Theorem C26_two_paths_refuted :
   let p := [97; 47; 98] in let t := mkI 1700000000 0 0 in
   valid_name p = true /\ identifies (tokenize f_two) = true /\ encodable 0 (tokenize f_two) t = true /\
-  decode 0 f_two (encode_go f_two p t) = Some ([98; 47; 97; 47; 98], 1700000000, 0).
+  decode_lax 0 f_two (encode_go f_two p t) = Some ([98; 47; 97; 47; 98], 1700000000, 0) /\
+  decode 0 f_two (encode_go f_two p t) = None.
 Proof. exact two_paths_refuted. Qed.
 Print Assumptions C26_two_paths_refuted.
 
@@ -75,8 +214,6 @@ Print Assumptions C26_civil_days_civil.
 
 (* non-vacuity: the default format (made absolute, with extension) is well-formed and identifies the
    instant; a concrete segment name round-trips in a +01:00 zone; a %z format likewise *)
-Definition f_default : list Z :=  (* /rec/%path/%Y-%m-%d_%H-%M-%S-%f.mp4 *)
-  [47;114;101;99;47; 37;112;97;116;104; 47; 37;89;45;37;109;45;37;100;95;37;72;45;37;77;45;37;83;45;37;102; 46;109;112;52].
 Definition f_zone : list Z :=     (* %path/%Y-%m-%d_%H-%M-%S-%f%z *)
   [37;112;97;116;104; 47; 37;89;45;37;109;45;37;100;95;37;72;45;37;77;45;37;83;45;37;102;37;122].
 Example C26_example :
